@@ -248,6 +248,30 @@ def run_static(cell, rec, seed):
                                   detail=d, mech="route-c-posterior-mu")
                         rec.close("factor-route posterior covariance", dn.Sigma, S_ref[None],
                                   ns=ns_S, detail=d, mech="route-c-posterior-Sigma")
+        # ---- route (a'): the N observation models as one batch built without an offset (b is
+        # optional), sliced one at a time in the sequential loop of the linear-regression example
+        if ok in ("full", "diag") and N > 1:
+            cb0 = lc.call(rec, "ctor", lambda: cls(M=J(np.stack(Ms)), Sigma=J(np.stack(Ss))), info)
+            mu0_ref, S0_ref, _, _ = posterior_mp(tp.mu[0], tp.Sigma[0], Ms,
+                                                 [np.zeros(Dy)] * N, Ss, ys)
+            p = prior
+            okrun = cb0 is not None
+            for i in (list(rng.permutation(N)) if okrun else []):
+                ci = lc.call(rec, "slice", lambda: cb0.slice(JI([int(i)])), info)
+                post = None if ci is None else lc.call(
+                    rec, "affine_conditional_transformation",
+                    lambda: ci.affine_conditional_transformation(p), info)
+                if post is None:
+                    okrun = False
+                    break
+                p = post.condition_on_x(J(ys[i][None]))
+            if okrun:
+                d = dict(info, route="sequential over slices of a batch without offset")
+                rec.close("sliced-batch posterior mean", p.mu, mu0_ref[None],
+                          ns=np.max(np.abs(mu0_ref)) + np.max(np.abs(tp.mu)) + 1e-3, detail=d,
+                          mech="route-a-sliced-batch-posterior-mu")
+                rec.close("sliced-batch posterior covariance", p.Sigma, S0_ref[None], ns=ns_S,
+                          detail=d, mech="route-a-sliced-batch-posterior-Sigma")
         if rep == 0 and N > 1:
             rec.sample({"case": info, "orders": history["orders"], "posterior_mu": mu_ref,
                         "log_marginal_likelihood": lml_ref})
